@@ -23,7 +23,7 @@ RULE = (
     "histories: 2-12 utterances per instance over random STFT/SI configurations; utterance kinds chunked (random composition with empty chunks, empty "
     "first chunk), compute_full, frame_by_frame_calculation(chunk_size); lengths 0, 1, sub-frame, frame_length//2, frame_length, several frames, beyond a "
     "DFT block; float32/float64 switches between utterances; 0-2 redundant finalize calls; compute_full / fbf attempts mid-utterance; two instances "
-    "sharing one bank interleaved; non-trivial = history with >=2 utterances of different length class; distinct by (configuration, sequence of (kind, "
+    "sharing one bank interleaved; deep copies / pickle round trips of one template fed chunk by chunk in turn, one forked mid-utterance; non-trivial = history with >=2 utterances of different length class; distinct by (configuration, sequence of (kind, "
     "length class, dtype))"
 )
 ASSUMPTIONS = [
